@@ -34,8 +34,18 @@ def comp(f, xs, cond=None, kind="list"):
         COUNTS["symbolic"] += 1
         if cond is not None:
             c = cond(xs.elem)
-            if c is not True:
-                raise Unsupported("comprehension filter on a symbolic sequence is not constantly true")
+            if c is True:
+                # every element passes (decided for the generic element): no filtering
+                return SymSeq(xs.ident + "'", f(xs.elem), xs.min_len, root=xs.root, perm_of=xs.perm_of)
+            elif c is False:
+                # the generic element of the FILTERED sequence is an arbitrary element that passes the
+                # filter: a path on which the generic element fails it says nothing about the result
+                raise pyvc.Infeasible()
+            else:
+                raise Unsupported("comprehension filter on a symbolic sequence is not decided")
+            r = SymSeq(xs.ident + "|filter", f(xs.elem), 0, root=xs.root + "|filter", perm_of=xs.perm_of)
+            r.filtered = True
+            return r
         return SymSeq(xs.ident + "'", f(xs.elem), xs.min_len, root=xs.root, perm_of=xs.perm_of)
     if isinstance(xs, SymPerms):
         COUNTS["symbolic"] += 1
